@@ -873,16 +873,22 @@ fn p12(p: &mut ProbeReport, r: &mut Rng, budget: usize) {
         // the record added after an empty-query search: rated above, below, or tied with an existing record
         let extra_rating = match r.below(4) { 0 => r.below(1 << 20) + (1 << 20), 1 => 0, _ => r.pick(&scn.recs).2 };
         let extra = (n + 1, if r.chance(1, 2) { format!("a{}", v.word(r)) } else { v.title(r) }, extra_rating);
-        for phase in 0..2 {
+        // phase 2: ONE long-lived store whose limit walks down and up again between empty-query searches
+        let mut walking: Option<Store> = None;
+        for phase in 0..3 {
             if phase == 1 { scn.recs.push(extra.clone()); }
-            for limit in 0..=scn.recs.len() + 2 {
-                let mut st = Scn { limit, ..scn.clone() }.build();
+            if phase == 2 { walking = Some(Scn { limit: scn.recs.len() + 2, ..scn.clone() }.build()); }
+            let nlim = scn.recs.len() + 2;
+            let limits: Vec<usize> = if phase == 2 { (0..=nlim).rev().chain(1..=nlim).collect() } else { (0..=nlim).collect() };
+            for limit in limits {
+                let mut st = if phase == 2 { let mut w = walking.take().unwrap(); w.limit = limit; w } else { Scn { limit, ..scn.clone() }.build() };
                 if phase == 1 {
                     // history: an empty-query search happened before the last add
                     st = { let mut s = new_store(code, limit); for (k, (id, t, rt)) in scn.recs.iter().enumerate() { if k + 1 == scn.recs.len() { let _ = search_results(&s, ""); } add_to(&mut s, *id, t, *rt); } s };
                 }
                 let q = r.pick(&["", " ", " - ", "!?", "\u{a0}"]).to_string();
                 let hits = search_marked(&mut st, &q);
+                if phase == 2 { walking = Some(st); }
                 p.eval(&format!("{}|{}|{}|{}|{}", code, scn.recs.len(), limit, phase, q), scn.recs.len() > limit);
                 let mk = |what: String| (what, Scn { limit, ..scn.clone() }.case("c12", vec![Op::Search(q.clone())]));
                 let want_len = limit.min(scn.recs.len());
